@@ -234,6 +234,7 @@ func (sta *State) registerRandom(r [32]byte) bool {
 	r[31] &= 0x7f
 	sta.usedRandomM.Lock()
 	_, used := sta.UsedRandom[r]
+	common.VerifPoint("registerRandom.betweenTestAndSet")
 	sta.UsedRandom[r] = sta.WorldState.Now().Unix()
 	sta.usedRandomM.Unlock()
 	return used
